@@ -26,8 +26,8 @@ var verifC19FnSrc = []string{
 }
 
 func VerifC19Setup() {
-	verifC19Select = verifParse("select * from `f.csv`;")
-	verifC19SelectL = verifParse("select * from `f.ltsv`;")
+	verifC19Select = verifParse("select * from `f.csv`; select count(*), max(1) from `f.csv`; select distinct * from `f.csv`;")
+	verifC19SelectL = verifParse("select * from `f.ltsv`; select count(*) from `f.ltsv`;")
 	verifC19SelectT = verifParse("select * from t; insert into `new/x.csv` values (1); select * from `d.csv`;")
 	for _, s := range verifC19FnSrc {
 		q := verifParseSelect("select " + s)
